@@ -329,7 +329,9 @@ func runJ2T(w *W, cv *j2t.BinaryConv, desc *thrift.TypeDescriptor, js []byte, en
 	defer func() { w.World.StepLimit = savedLimit }()
 	res.Facts = map[string]string{"api": "Do"}
 	if !env.DoInto {
-		out, err := cv.Do(ctx, desc, doc)
+		var out []byte
+		var err error
+		callOn(w, func() { out, err = cv.Do(ctx, desc, doc) })
 		res.Out, res.Err = out, err
 	} else {
 		res.Facts["api"] = "DoInto"
@@ -342,7 +344,8 @@ func runJ2T(w *W, cv *j2t.BinaryConv, desc *thrift.TypeDescriptor, js []byte, en
 		for i := 0; i < env.Prefix; i++ {
 			buf = append(buf, byte(0xC0+i%16))
 		}
-		err := cv.DoInto(ctx, desc, doc, &buf)
+		var err error
+		callOn(w, func() { err = cv.DoInto(ctx, desc, doc, &buf) })
 		res.Err = err
 		own := ob.Owns(buf)
 		res.Facts["kept_caller_buffer"] = fmt.Sprint(own)
